@@ -32,6 +32,7 @@ import (
 	"time"
 
 	"github.com/influxdata/influxdb/toml"
+	"github.com/openGemini/openGemini/engine/immutable"
 	"github.com/openGemini/openGemini/lib/config"
 	"github.com/openGemini/openGemini/lib/errno"
 	"github.com/openGemini/openGemini/lib/fileops"
@@ -332,11 +333,6 @@ func (g *c05Group) teardown() {
 	}
 	synctest.Wait()
 	_ = os.RemoveAll(g.dir)
-}
-
-type c05Status struct {
-	r  *c05Replica
-	st raft.Status
 }
 
 // leader returns the up replica that is raft leader with the highest term (nil if none).
@@ -1039,6 +1035,14 @@ func TestVerifC05(t *testing.T) {
 }
 
 func c05Main(t *testing.T, rep *kit.Report) {
+	// The package-global compaction worker runs on a real-time ticker OUTSIDE the bubble; a shard that it sees between
+	// OpenAndEnable (register) and vOpenShard's unregister makes the runtime abort ("receive on synctest channel from
+	// outside bubble"). Shards of this harness register with an inert worker instead (no goroutine); compaction is not
+	// part of the alphabet.
+	compWorker = &Compactor{
+		sources: make(map[uint64]*shard, 32),
+		plans:   make(map[uint64][immutable.CompactLevels]map[string][][]uint64, 8),
+	}
 	logger.SetLogger(zap.NewNop())
 	raft.SetLogger(&raft.DefaultLogger{Logger: c05DiscardLogger()})
 	vSetupEngineKnobs()
